@@ -579,6 +579,11 @@ func Run(ctx *core.Ctx) {
 		ctx.Fatal("%v", err)
 	}
 	defer sink.Close()
+	if os.Getenv("VERIF_C06_ONLY") == "stale-position" {
+		// debugging / replay aid: only the stale-position scenario
+		runStalePosition(ctx, bin)
+		return
+	}
 	var scs []scenario
 	inits := []string{"empty", "prefix-small", "unrelated-small", "prefix-big", "unrelated-big", "diverged-same-length"}
 	// fixed core list: every initial state, every single fault
@@ -600,7 +605,8 @@ func Run(ctx *core.Ctx) {
 		scs = append(scs, scenario{initial: in, faults: fs, big: strings.HasSuffix(in, "big") || r.Intn(2) == 0})
 	}
 	var wg sync.WaitGroup
-	wg.Add(5)
+	wg.Add(6)
+	go func() { defer wg.Done(); runStalePosition(ctx, bin) }()
 	go func() { defer wg.Done(); runStalledSwitch(ctx, bin) }()
 	go func() { defer wg.Done(); runStarValue(ctx, bin) }()
 	go func() { defer wg.Done(); runSwitchLeader(ctx, bin) }()
